@@ -14,7 +14,7 @@ ENGINE = {'name': 'relay',
  'rule': 'loopback relay scenarios: every wrapper (none, throttle with a huge rate, proxy_protocol, tee with a discarding branch) x 1..3 peers x '
          'the four half-close orders (both free; client first with upstreams waiting for EOF; upstreams first with the client waiting for EOF; '
          'free with mixed chunkings), boundary payload sizes 0, 1, 4096, 8192, 8193, 32768, 32769, 65536, 1 MiB in both directions, abrupt closes '
-         '(RST) of the client and of an upstream mid-stream, plus VERIF_N random scenarios (payload 0..2 KiB, one in six up to 300 KB; write chunk '
+         '(RST) of the client and of an upstream mid-stream, also while the other upstreams idle waiting for end-of-stream (the client->upstream direction then ends with an error, not a FIN; the client keeps sending after an upstream was reset so that a write to it fails), 2..3 upstream peers over unix sockets (no WriteTo/ReadFrom fast path in io.Copy) streaming 0.3..1 MiB each at the same time, plus VERIF_N random scenarios (payload 0..2 KiB, one in six up to 300 KB; write chunk '
          'sizes 1..64 KiB with random pauses); dialPeers with refusing peers at every position of 1..3 peers. A case is non-trivial when both '
          'directions carry data and one side half-closes only after the other; distinct = (peers, wrapper, close order, size buckets)',
  'trusted_base': ['Linux loopback TCP and /proc/net/tcp (a socket whose inode is non-zero is still owned by a file descriptor) are used to observe '
@@ -26,6 +26,6 @@ ENGINE = {'name': 'relay',
               'not modelled: TCP back-pressure and segment boundaries, goroutine scheduling (arbitrary interleaving of the modelled atomic steps instead), UDP upstreams, TLS'],
  'assumptions': ['scheduler = arbitrary interleaving of the atomic steps of model/Relay.v; chunk sizes are oracles',
                  'relay_final / relay_completes are claimed for executions without abrupt close, with upstream transports that offer CloseWrite, and applications that do not wait for each other circularly (compatible); relay_safety and relay_terminates hold for all executions including abrupt closes',
-                 'half-close towards the client is proved for chains without the third-party *proxyprotocol.Conn (recorded finding C03:halfclose:client-eof-missing:proxy_protocol)',
+                 'half-close towards the client is proved for every chain built from the wrapper types of the shipped handlers (layer4.Connection, throttledConn, nextConn, proxy_protocol proxyConn); each must declare CloseWrite (gen/Shape.v)',
                  'dialPeers: a connection whose PROXY header write fails after a successful dial is not closed by dialPeers (DialOkHeaderErr in the model; excluded from cleanup_on_dial_failure, not reproduced against the real code)',
                  'a full Close of a connection that still has unread incoming data is modelled as graceful']}
